@@ -20,6 +20,10 @@ CHECKS = {
    text="spec/Pkcs7Sym.tla states RFCVerify (signer entry names the certificate's issuer+serial, carries signed attributes, RSA-SHA256 valid under the certificate's key over the attributes as they appear, messageDigest = H(encapsulated content)); TLC enumerates every symbolic blob of the bounded space x 3 verifying certificates and emits must_not/must/may; the harness builds each blob as DER with real RSA signatures and runs every entry point (ParsePKCS7+Verify wrapped and bare, EFIVariableAuthentication2.Verify, ParseAuthenticode). Single-bit and structural mutations of library-, OpenSSL-, sbsign- and sbvarsign-produced blobs are projected by an independent reader to observations that TLC judges with the same rule (spec/Pkcs7Obs.tla).",
    note="Trusted: TLC, symbolic cryptography assumptions, harness PKCS#7 reader/builder (encoding/asn1, crypto/rsa). Mutated blobs the independent reader cannot parse are not judged. The declared digestAlgorithm OID is not part of the statement (MAY).",
    technique="symbolic TLA+ verification rule model-checked with TLC; TLC-enumerated blobs concretised and run on the code; observations judged by TLC"),
+ "C05": dict(level="model_checking", ref="5/C05",
+   text="spec/Pkcs7Sym.tla fixes what an honest producer emits (HonestSigner: SHA-256, sid = issuer+serial, contentType + messageDigest + signingTime in a DER-ordered SET, RSA over that SET, content encapsulated iff non-empty and not data); TLC enumerates the producer configurations; for each the real SignPKCS7 / SignAuthenticode output is projected by the harness's independent reader to a symbolic blob and validated by TLC against spec/Pkcs7SignTrace.tla, which also requires OpenSSL (smime/cms -verify, data content) and go.mozilla.org/pkcs7 to accept the right and reject altered content, the library's own parser to recover the fields and its Verify to accept for the signer only.",
+   note="Trusted base is large: encoding/asn1, crypto/rsa, the OpenSSL 3 CLI and go.mozilla.org/pkcs7; OpenSSL judges data content only. Quick: seeded sample covering every value of every dimension (60 configurations); thorough: the full product (1260).",
+   technique="symbolic TLA+ producer spec; outputs of the code projected and validated by a TLC trace spec; independent verifiers as recorded facts"),
  "C07": dict(level="model_checking", ref="5/C07",
    text="spec/EslCodec.tla models the decoder as a step machine over abstract streams; TLC checks WellFormedAccepted/AcceptSound on every well-formed stream of the bounded language and emits each with its exact lists; every one is concretised, decoded by the real ReadSignatureDatabase, compared entry by entry and re-encoded byte-identically. The converse (databases reachable through library operations) is decided by replaying TLC-generated SigDb histories with a recode after every step and validating the recorded events with SigDbTrace. Repository fixtures are projected to abstract cases and judged by TLC (observation config).",
    note="Trusted: TLC, the harness's independent ESL writer/reader, SHA-256 identity of filler bytes. hdrsize != 0 and zero-count lists are MAY. Exhaustive within: <=2 (quick) / <=3 (thorough) lists of 18 shapes.",
